@@ -83,7 +83,7 @@ def run(ctx):
                rule='MC: for every feed of the grid and T / P ratio exactly one of all-liquid / all-vapour / two-phase holds, Rachford-Rice roots are solutions, '
                     'scale independence. Exact binding: TP flashes in all three regions and TV / PV flashes of synthetic ideal mixtures (1-5 chemicals, any '
                     'scale, material initially in either phase) against solutions TLC verifies in rationals. Real packages: every clause of C04 measured per flash')
-    return 'model_checking', cov, ASSUME
+    return 'exploration', cov, ASSUME
 
 
 def replay(ctx, data):
